@@ -1528,6 +1528,8 @@ class Qube(object):
 
         # Prevent recursion, convert to floating point
         deriv = deriv.wod.as_float()
+        if deriv is self:
+            deriv = deriv.clone(recursive=False)
 
         # Match readonly of parent if necessary
         if self._readonly_ and not deriv._readonly_:
